@@ -15,6 +15,7 @@ pub mod c11;
 pub mod c12;
 pub mod c13;
 pub mod c14;
+pub mod c15;
 pub mod c16;
 pub mod c17;
 pub mod c18;
@@ -24,5 +25,5 @@ pub mod c20;
 pub type RunFn = fn(&mut Ctx, Option<&Path>);
 
 pub fn registry() -> Vec<(&'static str, RunFn)> {
-    vec![("C01", c01::run_all as RunFn), ("C02", c02::run_all as RunFn), ("C03", c03::run_all as RunFn), ("C04", c04::run_all as RunFn), ("C05", c05::run_all as RunFn), ("C06", c06::run_all as RunFn), ("C07", c07::run_all as RunFn), ("C09", c09::run_all as RunFn), ("C10", c10::run_all as RunFn), ("C11", c11::run_all as RunFn), ("C12", c12::run_all as RunFn), ("C13", c13::run_all as RunFn), ("C14", c14::run_all as RunFn), ("C16", c16::run_all as RunFn), ("C17", c17::run_all as RunFn), ("C18", c18::run_all as RunFn), ("C19", c19::run_all as RunFn), ("C20", c20::run_all as RunFn)]
+    vec![("C01", c01::run_all as RunFn), ("C02", c02::run_all as RunFn), ("C03", c03::run_all as RunFn), ("C04", c04::run_all as RunFn), ("C05", c05::run_all as RunFn), ("C06", c06::run_all as RunFn), ("C07", c07::run_all as RunFn), ("C09", c09::run_all as RunFn), ("C10", c10::run_all as RunFn), ("C11", c11::run_all as RunFn), ("C12", c12::run_all as RunFn), ("C13", c13::run_all as RunFn), ("C14", c14::run_all as RunFn), ("C15", c15::run_all as RunFn), ("C16", c16::run_all as RunFn), ("C17", c17::run_all as RunFn), ("C18", c18::run_all as RunFn), ("C19", c19::run_all as RunFn), ("C20", c20::run_all as RunFn)]
 }
